@@ -1,2 +1,4 @@
 import SweepG.Quire
+import SweepG.Quire8
 import SweepG.Sample
+import SweepG.Poly
